@@ -796,6 +796,10 @@ val query_close : nat -> unit mW
 
 val query_set_table : nat -> nat -> nat -> unit mW
 
+val nt_fail_pos : w -> rel list -> nat list -> nat -> nat -> nat
+
+val on_err : 'a1 mW -> (w -> w) -> 'a1 mW
+
 val query_next_table : nat -> nat list -> bool -> bool mW
 
 val query_archetypes : w -> qobj -> nat list
